@@ -279,6 +279,28 @@ fn pipeline_components(text: &str, out: &mut Out) -> String {
         }
         class
     });
+    // the same component set reached through a history of library calls (part of the file read, a component pushed, normalized
+    // again; normalized twice) is evaluated as well: no panic there either
+    if matches!(&r, Ok(c) if c.starts_with("ok") && c != "ok:no_components") {
+        let rh = trap(|| {
+            for v in crate::hist::variants(text, 4) {
+                let Ok(c) = &v.comps else { continue };
+                let f = subj::fset("PENINSULA").clone().strip(c);
+                if let Ok(ep) = cteepbd::energy_performance(c, &f, 0.0, 1.0, false) {
+                    let _ = cte::fraccion_renovable_acs_nrb(&ep);
+                    let _ = ep.to_plain();
+                    let _ = ep.to_xml();
+                }
+                let _ = c.to_string();
+            }
+        });
+        out.evals += 1;
+        if let Err(p) = rh {
+            let site = p.rsplit(" at ").next().unwrap_or("").to_string();
+            out.viol("library_never_panics", &[&format!("site:{site}"), "history"], "in-process: read part of the file / push a component / normalize() again -> strip -> energy_performance -> DHW fraction -> plain/xml", format!("panic: {p}"), "a result or a typed error");
+            return format!("panic:{site}");
+        }
+    }
     match r {
         Ok(c) => c,
         Err(p) => {
@@ -517,6 +539,11 @@ pub fn run(ctx: &Ctx) -> i32 {
     explore(ctx, &format!("valid constructions: AUX systems (alphabet of C06), depth<={}", if q { 5 } else { 6 }), Wide { alphabet: super::c06::aux_alphabet(), bases: crate::alpha::bases(false), max_add: if q { 5 } else { 6 }, repeat: false }, light.clone(), shared.clone());
     explore(ctx, &format!("valid constructions: ambient / solar systems (alphabet of C05), depth<={}", if q { 2 } else { 3 }), Wide { alphabet: super::c05::env_alphabet(2), bases: crate::alpha::bases(false), max_add: if q { 2 } else { 3 }, repeat: false }, light.clone(), shared.clone());
     explore(ctx, &format!("valid constructions: AUX/ENV systems and metadata (alphabet of C10), depth<={}", if q { 3 } else { 4 }), Wide { alphabet: super::c10::aux_env_letters(), bases: crate::alpha::bases(false), max_add: if q { 3 } else { 4 }, repeat: false }, light.clone(), shared.clone());
+    for (name, slots) in super::c15::construction_slots(q) {
+        explore(ctx, &format!("valid constructions: DHW buildings (parameter space of C15), {name}"), Layered { slots, bases: crate::alpha::bases(false) }, light.clone(), shared.clone());
+    }
+    explore(ctx, "valid constructions: FLOW with values of five to eight significant digits (33725.21, 96485.72, 1234567.89), depth<=3", Wide { alphabet: crate::alpha::flow(2, &[3372521, 9648572, 123456789], crate::alpha::Rich::Base), bases: crate::alpha::bases(false), max_add: if q { 3 } else { 4 }, repeat: false }, light.clone(), shared.clone());
+    explore(ctx, "valid constructions: COMBO (complete 12-step buildings)", Layered { slots: crate::alpha::combo_slots(if q { 12 } else { 16 }), bases: crate::alpha::bases(false) }, light.clone(), shared.clone());
     explore(ctx, &format!("valid constructions: FLOW, depth<={}", if q { 2 } else { 3 }), Wide { alphabet: crate::alpha::flow(2, &[0, 100, 300], crate::alpha::Rich::Wide), bases: crate::alpha::bases(false), max_add: if q { 2 } else { 3 }, repeat: false }, light.clone(), shared.clone());
     // numeric options and environment faults (one state, so that it is replayable like any other)
     explore(ctx, "numeric options in-process and on the command line; unreadable / non-UTF-8 / missing files", Layered { slots: vec![vec![Letter::one(Line::Raw(KIND_OPTIONS.to_string()))]], bases: vec![("options".to_string(), String::new())] }, light.clone(), shared.clone());
